@@ -20,10 +20,10 @@ import (
 	"github.com/modern-go/reflect2"
 )
 
+// readUnsafeBytes returns a slice that is only valid until the next read: the caller uses it
+// and then skips the closing quote itself (skipping may refill the buffer).
 func (dec *Decoder) readUnsafeBytes() []byte {
-	bytes := dec.UnsafeNext(dec.ReadCount())
-	dec.Skip()
-	return bytes
+	return dec.UnsafeNext(dec.ReadCount())
 }
 
 func (dec *Decoder) readBytes() []byte {
